@@ -35,6 +35,8 @@ type c25LOD struct {
 type c25Key struct {
 	Time int64   `json:"time"`
 	Tags []int64 `json:"tags,omitempty"` // one value per By entry
+	// unmapped string values, one per By entry ("" = the value is the mapped integer in Tags; otherwise Tags[i] is 0)
+	STags []string `json:"stags,omitempty"`
 	SKey string  `json:"skey,omitempty"`
 }
 
@@ -82,7 +84,32 @@ func (k *c25Key) cmp(o *c25Key) int {
 	return 0
 }
 
-func (k *c25Key) id() string { return fmt.Sprintf("%d|%v|%q", k.Time, k.Tags, k.SKey) }
+// id identifies a storage series: time, every grouped-by tag including unmapped string values, string key.
+// (cmp above is the order row markers define: they carry integer tag values and the string key only.)
+func (k *c25Key) id() string { return fmt.Sprintf("%d|%v|%q|%q", k.Time, k.Tags, k.stags(), k.SKey) }
+
+func (k *c25Key) stags() []string {
+	res := make([]string, len(k.Tags))
+	copy(res, k.STags)
+	return res
+}
+
+// cmpFull: storage order (ORDER BY time, tag, stag, ...): cmp, ties broken by the string values.
+func (k *c25Key) cmpFull(o *c25Key) int {
+	if d := k.cmp(o); d != 0 {
+		return d
+	}
+	a, b := k.stags(), o.stags()
+	for i := range a {
+		if i < len(b) && a[i] != b[i] {
+			if a[i] < b[i] {
+				return -1
+			}
+			return 1
+		}
+	}
+	return 0
+}
 
 // c25InWindow: strictly between the "from" row and the "to" row in the requested direction (both markers are rows of
 // neighbouring pages and are excluded, as Test_limitQueries documents).
@@ -168,6 +195,9 @@ func c25Prop(t vpT, c c25Case) (nontrivial bool, classes []string) {
 		r.time = k.Time
 		for i, x := range c.By {
 			r.tag[x] = k.Tags[i]
+			if i < len(k.STags) {
+				r.stag[x] = k.STags[i]
+			}
 		}
 		r.stag[format.StringTopTagIndexV3] = k.SKey
 		b := c25Base(p, ki)
@@ -183,7 +213,7 @@ func c25Prop(t vpT, c c25Case) (nontrivial bool, classes []string) {
 	for i := range order {
 		order[i] = i
 	}
-	sort.SliceStable(order, func(a, b int) bool { return c.Keys[order[a]].cmp(&c.Keys[order[b]]) < 0 })
+	sort.SliceStable(order, func(a, b int) bool { return c.Keys[order[a]].cmpFull(&c.Keys[order[b]]) < 0 })
 	loaderCalls := 0
 	load := func(_ context.Context, _ *requestHandler, pq *queryBuilder, lod data_model.LOD, _ bool) ([][]tsSelectRow, error) {
 		loaderCalls++
@@ -294,11 +324,13 @@ func c25Prop(t vpT, c c25Case) (nontrivial bool, classes []string) {
 	// ---- compare ----
 	seen := map[string]bool{}
 	var prev *c25Key
+	onlyStag, unmapped, mixed := false, false, false
 	for ri := range got {
 		row := &got[ri]
 		k := c25Key{Time: row.row.time, SKey: row.row.stag[format.StringTopTagIndexV3]}
 		for _, x := range c.By {
 			k.Tags = append(k.Tags, row.row.tag[x])
+			k.STags = append(k.STags, row.row.stag[x])
 		}
 		id := k.id()
 		if row.Time != k.Time {
@@ -316,8 +348,22 @@ func c25Prop(t vpT, c c25Case) (nontrivial bool, classes []string) {
 		}
 		if prev != nil {
 			d := prev.cmp(&k)
-			if (!c.FromEnd && d >= 0) || (c.FromEnd && d <= 0) {
+			// rows that differ only in unmapped string tag values are equal for the marker order
+			if (!c.FromEnd && d > 0) || (c.FromEnd && d < 0) {
 				t.Fatalf("rows %d and %d are not in the requested order (fromEnd=%v): %s then %s", ri-1, ri, c.FromEnd, prev.id(), id)
+			}
+		}
+		if prev != nil && prev.cmp(&k) == 0 {
+			onlyStag = true
+		}
+		for i := range k.STags {
+			if k.STags[i] != "" {
+				unmapped = true
+				for rj := range got[:ri] {
+					if x := c.By[i]; got[rj].row.stag[x] == "" && got[rj].row.tag[x] != 0 {
+						mixed = true
+					}
+				}
 			}
 		}
 		kk := k
@@ -376,6 +422,9 @@ func c25Prop(t vpT, c c25Case) (nontrivial bool, classes []string) {
 	}
 	distinctPasses := len(taken)
 	add(len(c.LODs) >= 2, "multi-lod")
+	add(onlyStag, "rows-differ-only-in-stag")
+	add(unmapped, "unmapped-string-tag")
+	add(mixed, "mapped-and-unmapped-on-one-tag")
 	add(distinctPasses >= 2, "multi-pass")
 	add(limitInside, "limit-inside-data")
 	add(c.FromEnd, "from-end")
@@ -439,7 +488,8 @@ func c25Gen() *rapid.Generator[c25Case] {
 			c.Whats = rapid.SliceOfNDistinct(rapid.SampledFrom(digests), 9, 20, rapid.ID[int]).Draw(t, "whats")
 		}
 		// grouping
-		c.By = rapid.SliceOfNDistinct(rapid.SampledFrom([]int{1, 2, 3}), 0, 2, rapid.ID[int]).Draw(t, "by")
+		nby := rapid.SampledFrom([]int{0, 1, 1, 2, 2}).Draw(t, "nby")
+		c.By = rapid.SliceOfNDistinct(rapid.SampledFrom([]int{1, 2, 3}), nby, nby, rapid.ID[int]).Draw(t, "by")
 		sort.Ints(c.By)
 		c.BySKey = rapid.IntRange(0, 3).Draw(t, "byskey") == 0
 		// keys
@@ -453,10 +503,24 @@ func c25Gen() *rapid.Generator[c25Case] {
 			slot := int64(rapid.IntRange(0, int((l.To-l.From)/l.Step)-1).Draw(t, "key-slot"))
 			k := c25Key{Time: l.From + slot*l.Step}
 			for range c.By {
-				k.Tags = append(k.Tags, int64(rapid.IntRange(-2, 3).Draw(t, "key-tag")))
+				if rapid.IntRange(0, 2).Draw(t, "key-unmapped") == 0 { // unmapped value: integer 0 and a string
+					k.Tags = append(k.Tags, 0)
+					k.STags = append(k.STags, rapid.SampledFrom([]string{"x", "y", "z"}).Draw(t, "key-stag"))
+				} else {
+					k.Tags = append(k.Tags, int64(rapid.IntRange(-2, 3).Draw(t, "key-tag")))
+					k.STags = append(k.STags, "")
+				}
 			}
 			if c.BySKey {
 				k.SKey = rapid.SampledFrom([]string{"", "a", "b", "c"}).Draw(t, "key-skey")
+			}
+			// another series of the same time bucket that differs from an existing one only in a string tag value
+			if len(c.Keys) > 0 && len(c.By) > 0 && rapid.IntRange(0, 2).Draw(t, "key-clone") == 0 {
+				o := c.Keys[rapid.IntRange(0, len(c.Keys)-1).Draw(t, "clone-of")]
+				k = c25Key{Time: o.Time, Tags: append([]int64(nil), o.Tags...), STags: append([]string(nil), o.STags...), SKey: o.SKey}
+				i := rapid.IntRange(0, len(c.By)-1).Draw(t, "clone-tag")
+				k.Tags[i] = 0 // the clone's value is unmapped; it differs only in the string when the original's integer is 0
+				k.STags[i] = rapid.SampledFrom([]string{"x", "y", "z", "w"}).Draw(t, "clone-stag")
 			}
 			if !seen[k.id()] {
 				seen[k.id()] = true
